@@ -37,7 +37,7 @@ Theorem C05_call_is_body :
     str_eqb (m_name d) name = true -> m_body d <> [] ->
     bind_params (m_params d) args sc = Some sc1 ->
     call_mixin defs (S fuel) name args parent sc =
-      eval_body (call_mixin defs fuel) parent (add_variable $"@arguments" (arguments_value args) sc1) (m_body d).
+      eval_body (call_mixin defs fuel) parent (add_variable $"@arguments" (arguments_of (m_params d) args) sc1) (m_body d).
 Proof. exact call_is_body. Qed.
 Print Assumptions C05_call_is_body.
 
